@@ -107,7 +107,7 @@ func forall(lo, hi int, f func(int) bool) bool {
 //@           return exists(0, len(arg0), func(b int) bool { return exists(0, b, func(a int) bool { return same(result[k], arg0[a]) && same(result[i], arg0[b]) }) }) }) })
 
 //@ func sortedUniqueTables
-//@   property C06
+//@   property C06 C03 C07
 //@   ensures docsSorted(result)
 
 // (Of every operator's checkpoints file exactly the checkpoint the job's handle NAMES is used - the
